@@ -83,6 +83,8 @@ PROPS = {
 }
 PROPS['C18'] = dict(modules=['Hagall.Props.C18'], profiles=['latency', 'mixed'], n=(240, 4000), focus={'signedLatency', 'pingResp'},
                     extra=['latency_stats'], topics=slice_of(['signedLatency', 'pingResp', 'ping'], outs={'pingReq', 'latencyResp', 'error', 'pingResp'}))
+PROPS['C19'] = dict(modules=['Hagall.Props.C19'], profiles=['malformed', 'mixed'], n=(160, 3000), focus={'receipt'}, tools=['drive', 'extract', 'receipts'],
+                    extra=['receipts_harness'], topics=slice_of(['receipt', 'drain'], kinds=[]))
 
 # every property's obligations include the facts it rests on (regenerated from the source on every run)
 ABS = {'C14': ['Hagall.Gen.AbsCustom'], 'C17': ['Hagall.Gen.AbsFlags'], 'C04': ['Hagall.Gen.AbsDispatch'],
